@@ -674,7 +674,8 @@ class Interp:
                     pos = None
                     if alg is not None and hasattr(alg, "sign"):
                         try:
-                            pos = alg.sign(alg.sub(k, alg.const(1))) in ("+", ">=0", "0")
+                            # (a slice bound is an INTEGER: positive means >= 1)
+                            pos = alg.sign(k) == "+" or alg.sign(alg.sub(k, alg.const(1))) in ("+", ">=0", "0")
                         except Exception:
                             pos = None
                     if not pos:
